@@ -29,6 +29,8 @@ package ast
 //@ typeinv (n *ArrayLiteral) = forall i int :: 0 <= i && i < len(n.Elements) ==> nnx(n.Elements[i])
 //@ typeinv (n *HashLiteral) = n.Pairs != nil && (forall i int :: 0 <= i && i < len(n.Order) ==> nnx(n.Order[i]) && has(n.Pairs, n.Order[i]) && nnx(n.Pairs[n.Order[i]])) &&
 //@     (forall k Expression :: has(n.Pairs, k) ==> nnx(k) && wfx(n.Pairs[k]))
+// literal template text is the template author's markup (definition of trusted text, see plush contracts)
+//@ typeinv (n *HTMLLiteral) = evalphase() ==> trusted(n.Value)
 //@ typeinv (n *BlockStatement) = forall i int :: 0 <= i && i < len(n.Statements) ==> nnx(n.Statements[i])
 //@ typeinv (n *Program) = forall i int :: 0 <= i && i < len(n.Statements) ==> nnx(n.Statements[i])
 
